@@ -90,7 +90,7 @@ type c12Conn struct {
 
 var c12Addr = ma.StringCast("/ip4/10.1.2.3/tcp/40405")
 
-func (c *c12Conn) RemotePeer() peer.ID          { return c.id }
+func (c *c12Conn) RemotePeer() peer.ID           { return c.id }
 func (c *c12Conn) RemoteMultiaddr() ma.Multiaddr { return c12Addr }
 
 // c12Stream: what the remote side sent is whatever the harness put into in; what the node
@@ -105,7 +105,7 @@ type c12Stream struct {
 	resets  int
 }
 
-func (s *c12Stream) set(b []byte) { s.mu.Lock(); s.in = b; s.mu.Unlock() }
+func (s *c12Stream) set(b []byte)   { s.mu.Lock(); s.in = b; s.mu.Unlock() }
 func (s *c12Stream) nframes() int64 { s.mu.Lock(); defer s.mu.Unlock(); return s.frames }
 func (s *c12Stream) left() int      { s.mu.Lock(); defer s.mu.Unlock(); return len(s.in) }
 func (s *c12Stream) Read(p []byte) (int, error) {
@@ -143,22 +143,22 @@ func (c12Ceremony) IsRunning() bool { return false }
 // ------------------------------------------------------------------ system under test
 
 type c12Sut struct {
-	name    string
-	env     *verifsim.C12Env
-	node    *verifsim.C12Node
-	h       *protocol.IdenaGossipHandler
-	dl      *protocol.Downloader
-	fr      *consensus.ForkResolver
-	sa, sb  *c12Stream
-	pidA    peer.ID
-	headH   uint64 // the head the sut is kept at
-	ev      [4]int64 // bus events seen: new tx, flip key, key package, flip
-	props   []*types.BlockProposal
-	emptyHash common.Hash
+	name       string
+	env        *verifsim.C12Env
+	node       *verifsim.C12Node
+	h          *protocol.IdenaGossipHandler
+	dl         *protocol.Downloader
+	fr         *consensus.ForkResolver
+	sa, sb     *c12Stream
+	pidA       peer.ID
+	headH      uint64   // the head the sut is kept at
+	ev         [4]int64 // bus events seen: new tx, flip key, key package, flip
+	props      []*types.BlockProposal
+	emptyHash  common.Hash
 	carrierTpl *types.Block
 	t          *testing.T
-	corpus  []c12Item
-	byCode  map[uint64][]int
+	corpus     []c12Item
+	byCode     map[uint64][]int
 }
 
 // peers are values of an unexported type of package protocol; keep them behind closures
@@ -649,8 +649,14 @@ func (c *c12Ctx) call(entry string, input []byte, meter bool, f func()) bool {
 		return m
 	}
 	if res.Hung {
-		c.rep.Violation("hang:"+entry, fmt.Sprintf("%s did not return within %v (then %v more, alone): case %s, input (%d bytes) %s", entry, c12Soft, c12Hard, c.desc, len(input), c12Hex(input, 600)),
-			replay(map[string]interface{}{"goroutines": verifutil.Trunc(res.Dump, 60000)}))
+		c.rep.Violation("hang:"+entry, fmt.Sprintf("%s did not return (%s): case %s, input (%d bytes) %s", entry, res.Why, c.desc, len(input), c12Hex(input, 600)),
+			replay(map[string]interface{}{"goroutines": verifutil.Trunc(res.Dump, 60000), "why": res.Why}))
+		c.stop = true
+		return false
+	}
+	if res.Starved {
+		// no verdict: the watchdog expired on an overloaded machine; the goroutine is lost, end this child's workload
+		c.rep.Inconcl("%s: watchdog expired without a verdict (%s): case %s", entry, res.Why, c.desc)
 		c.stop = true
 		return false
 	}
